@@ -980,6 +980,8 @@ def _execute(p, s, res):
         # ---- end of history ----------------------------------------------------------------
         if not res["violation"] and not aborted:
             for t in world.threads[1:]:
+                if isinstance(t.exc, HarnessError):
+                    raise t.exc
                 if t.exc is not None:
                     _violate(res, "trigger_thread_raised", -1, {"thread": t.name, "exception": repr(t.exc)})
             missing = [n for n, (k, src) in M.event_serials.items()
